@@ -150,6 +150,10 @@ class Ctx:
         m = re.search(r"Error: Action property (\S+) is violated", out)
         if m:
             res["violated"] = m.group(1)
+        if res["violated"]:
+            sn = [int(x) for x in re.findall(r"^State (\d+):", out, re.M)]
+            if sn:
+                res["depth"] = max(sn)
         m = re.search(r"TRACE_REJECTED_AT\D+(\d+)", out)
         if m:
             res["rejected_at"] = int(m.group(1))
@@ -233,7 +237,8 @@ class Ctx:
                     raise Infra("trace validation %s shard %d: %s\n%s" % (module, si, r["error"], r["out"][-1500:]))
                 if r["rejected_at"] is None and r["violated"] is None:
                     break
-                at = r["rejected_at"] if r["rejected_at"] is not None else r["depth"]
+                # postcondition: first unmatched event = diameter; invariant: the event leading to the bad state
+                at = r["rejected_at"] if r["rejected_at"] is not None else max(1, r["depth"] - 1)
                 # locate the trace containing event number `at` (1-based)
                 pos = 0
                 hit = None
